@@ -104,6 +104,23 @@ func readings(z *dohfake.Zone, name string, seen map[string]bool) []reading {
 	return out
 }
 
+// aliasOnly: see model.AliasUp.
+func aliasOnly(z *dohfake.Zone, qname string) bool {
+	cur, seen := qname, map[string]bool{}
+	for hop := 0; hop <= 3; hop++ {
+		recs := httpsAt(z, cur)
+		if len(recs) == 0 {
+			return hop > 0 && len(addrsAt(z, cur)) > 0
+		}
+		if len(recs) != 1 || recs[0].Priority != 0 || isRoot(recs[0].Target) || seen[recs[0].Target] || recs[0].Target == qname {
+			return false
+		}
+		seen[cur] = true
+		cur = recs[0].Target
+	}
+	return false
+}
+
 type apSet map[netip.AddrPort]bool
 
 type model struct {
@@ -113,6 +130,7 @@ type model struct {
 	HasSvc   bool // every reading ends in service-mode records
 	Clean    bool // every name a connection could be made to has at least one address
 	Aliased  bool
+	AliasUp  bool // the query name holds alias-mode records only, and following them (real targets, no loop, at most 3 hops) ends at a name that has addresses and no HTTPS record at all
 	z        *dohfake.Zone
 	o        originSpec
 	port     int
@@ -125,6 +143,7 @@ func buildModel(z *dohfake.Zone, o originSpec, plainPort int) *model {
 	m.AnyRR = len(top) > 0
 	m.Aliased = m.AnyRR && top[0].Priority == 0
 	m.Readings = readings(z, m.QName, map[string]bool{m.QName: true})
+	m.AliasUp = aliasOnly(z, m.QName)
 	m.HasSvc, m.Clean = true, true
 	for _, rd := range m.Readings {
 		if len(rd.Svc) == 0 {
